@@ -34,15 +34,28 @@ theorem state_after_bind {α β : Type} (m : M Topo α) (g : α → M Topo β) (
   · rw [bind_ok h, h]; exact hg a s'
   · rw [bind_err h, h]
 
+/-- predicates that survive hanging a fresh element (not a ServicePort) off its container: `InvS` and `InvD` -/
+structure AttachStable (P : Topo → Prop) : Prop where
+  ids : ∀ s, P s → IdsOk s
+  closed : ∀ s, P s → ClosedOk s
+  attach : ∀ {s : Topo} {p n : GNode} {rel : Rel}, P s → p ∈ s.nodes → (∀ m ∈ s.nodes, m.nid ≠ n.nid) → nodeOk n = true →
+    edgeOk ⟨p.ref, n.ref, rel⟩ = true → p.cls ≠ .link → (n.cls = .connectionPoint → n.typ ≠ "ServicePort") →
+    P (ext s [n] [⟨p.ref, n.ref, rel⟩])
+
+theorem attachStable_invS : AttachStable InvS :=
+  ⟨fun _ h => h.ids, fun _ h => h.closed, fun h hp hf hv he hpl hsp => invS_attach h hp hf hv he hpl hsp⟩
+theorem attachStable_invD : AttachStable InvD :=
+  ⟨fun _ h => h.ids, fun _ h => h.closed, fun h hp hf hv he hpl _ => invD_attach h hp hf hv he hpl⟩
+
 /-- `add_node` of an element followed by `add_link` from its container: either nothing happened, or the element hangs
 off the container and the rest of the call runs in the extended state -/
-theorem invS_attach_step {β : Type} {s : Topo} {n p : GNode} {pid : Nid} {rel : Rel} {f : Unit → M Topo β} (h : InvS s)
+theorem inv_attach_step {P : Topo → Prop} (hP : AttachStable P) {β : Type} {s : Topo} {n p : GNode} {pid : Nid} {rel : Rel} {f : Unit → M Topo β} (h : P s)
     (hp : findNode pid s = (.ok p, s))
-    (hk : (∀ m ∈ s.nodes, m.nid ≠ n.nid) → InvS (f () (ext s [n] [⟨p.ref, n.ref, rel⟩])).2) :
-    InvS ((addGNode n >>= fun _ => addEdge pid rel n.nid >>= f) s).2 := by
+    (hk : (∀ m ∈ s.nodes, m.nid ≠ n.nid) → P (f () (ext s [n] [⟨p.ref, n.ref, rel⟩])).2) :
+    P ((addGNode n >>= fun _ => addEdge pid rel n.nid >>= f) s).2 := by
   rcases addGNode_cases n s with he | ⟨he, hn⟩
   · rw [bind_err he]; exact h
-  · rw [bind_ok he, bind_ok (addEdge_run (findNode_push_old hp hn) (findNode_push_new hn)), attach_state h.closed hn]
+  · rw [bind_ok he, bind_ok (addEdge_run (findNode_push_old hp hn) (findNode_push_new hn)), attach_state (hP.closed _ h) hn]
     exact hk hn
 
 /-! ## `Node.add_component` / `Node.add_storage` -/
@@ -66,10 +79,10 @@ theorem entryOk_of_find {m c : String} {e : Rules.CatEntry} (h : catalogFind m c
   · rw [hh] at h1; cases h1
   · exact h1
 
-theorem invS_ifaceLoop (nsId : Nid) (nsn : GNode) (aname : String) (hnc : nsn.cls = .networkService) :
-    ∀ (l : List (Rules.CatIface × Nid)) (s : Topo), InvS s → findNode nsId s = (.ok nsn, s) →
+theorem inv_ifaceLoop {P : Topo → Prop} (hP : AttachStable P) (nsId : Nid) (nsn : GNode) (aname : String) (hnc : nsn.cls = .networkService) :
+    ∀ (l : List (Rules.CatIface × Nid)) (s : Topo), P s → findNode nsId s = (.ok nsn, s) →
       (∀ x ∈ l, typeOk .connectionPoint x.1.itype = true ∧ x.1.itype ≠ "ServicePort") →
-      InvS (forEach l (fun x => match x with
+      P (forEach l (fun x => match x with
         | (ci, iid) => do
           addGNode ⟨.connectionPoint, iid, aname ++ "-" ++ ci.port, ci.itype, ci.props⟩
           addEdge nsId .connects iid) s).2 := by
@@ -79,14 +92,14 @@ theorem invS_ifaceLoop (nsId : Nid) (nsn : GNode) (aname : String) (hnc : nsn.cl
   | cons x xs ih =>
     intro s h hns hok
     obtain ⟨ci, iid⟩ := x
-    show InvS (((addGNode ⟨.connectionPoint, iid, aname ++ "-" ++ ci.port, ci.itype, ci.props⟩ >>= fun _ => addEdge nsId .connects iid)
+    show P (((addGNode ⟨.connectionPoint, iid, aname ++ "-" ++ ci.port, ci.itype, ci.props⟩ >>= fun _ => addEdge nsId .connects iid)
       >>= fun _ => forEach xs _) s).2
     rw [bind_assoc_apply]
     have hci := hok (ci, iid) (List.mem_cons_self ..)
-    refine invS_attach_step (n := ⟨.connectionPoint, iid, aname ++ "-" ++ ci.port, ci.itype, ci.props⟩) h hns (fun hn => ?_)
+    refine inv_attach_step hP (n := ⟨.connectionPoint, iid, aname ++ "-" ++ ci.port, ci.itype, ci.props⟩) h hns (fun hn => ?_)
     obtain ⟨hm, _, _⟩ := findNode_ok hns
     refine ih _ ?_ (findNode_ext_old hns hn) (fun y hy => hok y (List.mem_cons_of_mem _ hy))
-    exact invS_attach h hm hn (by simp [nodeOk, classOk_all, hci.1]) (by simp [edgeOk, GNode.ref, hnc]) (by simp [hnc])
+    exact hP.attach h hm hn (by simp [nodeOk, classOk_all, hci.1]) (by simp [edgeOk, GNode.ref, hnc]) (by simp [hnc])
       (fun _ => hci.2)
 
 /-- the writing part of `compNew` (its join point after the validations) -/
@@ -107,50 +120,50 @@ def compBody (b : Bool) (parent id : Nid) (c1 : Nat) (a : CompArgs) (p : GNode) 
       else Pure.pure ()
       Pure.pure id
 
-theorem invS_compBody (b : Bool) (parent id : Nid) (c1 : Nat) (a : CompArgs) (p pn : GNode) (e : Rules.CatEntry) (s : Topo) (h : InvS s)
+theorem inv_compBody {P : Topo → Prop} (hP : AttachStable P) (b : Bool) (parent id : Nid) (c1 : Nat) (a : CompArgs) (p pn : GNode) (e : Rules.CatEntry) (s : Topo) (h : P s)
     (hp : findNode parent s = (.ok pn, s)) (hpc : pn.cls = .networkNode) (he : EntryOk e) (hb : b = e.hasIfaces) :
-    InvS (compBody b parent id c1 a p e s).2 := by
+    P (compBody b parent id c1 a p e s).2 := by
   unfold compBody
   rcases (if b = true then ifaceIds a.ifNids e.ifaces.length c1 else ([], c1)) with ⟨ifIds, c2⟩
   dsimp only
   rcases (if b = true then pick a.nsNid c2 else (id, c2)) with ⟨nsId, c3⟩
   dsimp only
-  refine ro_step (Q := fun r => InvS r.2) (by ro) (fun _ => h) (fun kw _ => ?_)
+  refine ro_step (Q := fun r => P r.2) (by ro) (fun _ => h) (fun kw _ => ?_)
   obtain ⟨hpm, _, _⟩ := findNode_ok hp
-  refine invS_attach_step (n := ⟨.component, id, a.name, e.ctype, _⟩) h hp (fun hn => ?_)
-  have h1 : InvS (ext s [⟨.component, id, a.name, e.ctype, dictUpdate [("Model", e.model), ("Details", e.details), ("StitchNode", "false")] kw⟩]
+  refine inv_attach_step hP (n := ⟨.component, id, a.name, e.ctype, _⟩) h hp (fun hn => ?_)
+  have h1 : P (ext s [⟨.component, id, a.name, e.ctype, dictUpdate [("Model", e.model), ("Details", e.details), ("StitchNode", "false")] kw⟩]
       [⟨pn.ref, GNode.ref ⟨.component, id, a.name, e.ctype, dictUpdate [("Model", e.model), ("Details", e.details), ("StitchNode", "false")] kw⟩, .has⟩]) :=
-    invS_attach h hpm hn (by simp [nodeOk, classOk_all, he.ctype]) (by simp [edgeOk, GNode.ref, hpc]) (by simp [hpc]) (by simp)
+    hP.attach h hpm hn (by simp [nodeOk, classOk_all, he.ctype]) (by simp [edgeOk, GNode.ref, hpc]) (by simp [hpc]) (by simp)
   split
   · rename_i hifs
-    refine invS_attach_step (n := ⟨.networkService, nsId, p.name ++ "-" ++ a.name ++ e.nsSuffix, e.nsType, _⟩) h1
+    refine inv_attach_step hP (n := ⟨.networkService, nsId, p.name ++ "-" ++ a.name ++ e.nsSuffix, e.nsType, _⟩) h1
       (findNode_ext_new hn) (fun hn2 => ?_)
     rw [state_after_bind _ _ (fun _ _ => rfl)]
-    refine invS_ifaceLoop nsId _ a.name rfl _ _ ?_ (findNode_ext_new hn2) ?_
-    · exact invS_attach h1 (by simp [ext]) hn2 (by simp [nodeOk, classOk_all, he.nstype (hb ▸ hifs)]) (by simp [edgeOk, GNode.ref])
+    refine inv_ifaceLoop hP nsId _ a.name rfl _ _ ?_ (findNode_ext_new hn2) ?_
+    · exact hP.attach h1 (by simp [ext]) hn2 (by simp [nodeOk, classOk_all, he.nstype (hb ▸ hifs)]) (by simp [edgeOk, GNode.ref])
         (by simp) (by simp)
     · intro x hx
       exact he.ifaces x.1 (List.of_mem_zip hx).1
   · exact h1
 
-theorem invS_compNew (fl : Flavour) (c : Nat) (parent : Nid) (a : CompArgs) (s : Topo) (hh : HandleOk s parent .networkNode)
-    (h : InvS s) : InvS (compNew fl c parent a s).2 := by
+theorem inv_compNew {P : Topo → Prop} (hP : AttachStable P) (fl : Flavour) (c : Nat) (parent : Nid) (a : CompArgs) (s : Topo) (hh : HandleOk s parent .networkNode)
+    (h : P s) : P (compNew fl c parent a s).2 := by
   obtain ⟨nm, nid, ctype, model, nsNid, ifNids, nLabels, props⟩ := a
   unfold compNew
   dsimp only
-  refine ro_step (Q := fun r => InvS r.2) (by ro) (fun _ => h) (fun _ _ => ?_)
+  refine ro_step (Q := fun r => P r.2) (by ro) (fun _ => h) (fun _ _ => ?_)
   rcases pick nid c with ⟨id, c1⟩
   dsimp only
-  refine ro_step (Q := fun r => InvS r.2) (by ro) (fun _ => h) (fun _ _ => ?_)
-  refine ro_step (Q := fun r => InvS r.2) (by ro) (fun _ => h) (fun _ _ => ?_)
-  refine ro_step (Q := fun r => InvS r.2) (by ro) (fun _ => h) (fun p hp => ?_)
-  refine ro_step (Q := fun r => InvS r.2) (by ro) (fun _ => h) (fun e he => ?_)
-  refine ro_step (Q := fun r => InvS r.2) (by ro) (fun _ => h) (fun _ _ => ?_)
+  refine ro_step (Q := fun r => P r.2) (by ro) (fun _ => h) (fun _ _ => ?_)
+  refine ro_step (Q := fun r => P r.2) (by ro) (fun _ => h) (fun _ _ => ?_)
+  refine ro_step (Q := fun r => P r.2) (by ro) (fun _ => h) (fun p hp => ?_)
+  refine ro_step (Q := fun r => P r.2) (by ro) (fun _ => h) (fun e he => ?_)
+  refine ro_step (Q := fun r => P r.2) (by ro) (fun _ => h) (fun _ _ => ?_)
   have heo : EntryOk e := entryOk_of_find (need_ok ⟨s, he⟩)
   obtain ⟨hpm, hpi, _⟩ := findNode_ok hp
   have hpc : p.cls = .networkNode := hh p hpm hpi
-  have leaf : ∀ b, b = e.hasIfaces → InvS (compBody b parent id c1 ⟨nm, nid, ctype, model, nsNid, ifNids, nLabels, props⟩ p e s).2 :=
-    fun b hb => invS_compBody b parent id c1 _ p p e s h hp hpc heo hb
+  have leaf : ∀ b, b = e.hasIfaces → P (compBody b parent id c1 ⟨nm, nid, ctype, model, nsNid, ifNids, nLabels, props⟩ p e s).2 :=
+    fun b hb => inv_compBody hP b parent id c1 _ p p e s h hp hpc heo hb
   split
   · rename_i hif
     have lf := leaf true hif.symm
@@ -158,24 +171,35 @@ theorem invS_compNew (fl : Flavour) (c : Nat) (parent : Nid) (a : CompArgs) (s :
     cases ifNids <;> cases nLabels <;> dsimp only <;>
     repeat' (first
       | exact lf
-      | refine ro_step (Q := fun r => InvS r.2) (readOnly_guard _ _) (fun _ => h) (fun _ _ => ?_)
-      | (refine ro_step (Q := fun r => InvS r.2) (readOnly_raise _) (fun _ => h) (fun _ hr => ?_); simp at hr))
+      | refine ro_step (Q := fun r => P r.2) (readOnly_guard _ _) (fun _ => h) (fun _ _ => ?_)
+      | (refine ro_step (Q := fun r => P r.2) (readOnly_raise _) (fun _ => h) (fun _ hr => ?_); simp at hr))
   · rename_i hif
     exact leaf false (by simpa using hif)
 
-theorem invS_addComponent (fl : Flavour) (c : Nat) (parent : Nid) (a : CompArgs) (s : Topo) (hh : HandleOk s parent .networkNode)
-    (h : InvS s) : InvS (addComponent fl c parent a s).2 := by
+theorem inv_addComponent {P : Topo → Prop} (hP : AttachStable P) (fl : Flavour) (c : Nat) (parent : Nid) (a : CompArgs) (s : Topo) (hh : HandleOk s parent .networkNode)
+    (h : P s) : P (addComponent fl c parent a s).2 := by
   unfold addComponent
-  refine ro_step (Q := fun r => InvS r.2) (by ro) (fun _ => h) (fun _ _ => ?_)
-  refine ro_step (Q := fun r => InvS r.2) (by ro) (fun _ => h) (fun _ _ => ?_)
-  exact invS_compNew fl c parent a s hh h
+  refine ro_step (Q := fun r => P r.2) (by ro) (fun _ => h) (fun _ _ => ?_)
+  refine ro_step (Q := fun r => P r.2) (by ro) (fun _ => h) (fun _ _ => ?_)
+  exact inv_compNew hP fl c parent a s hh h
 
-theorem invS_addStorage (fl : Flavour) (c : Nat) (parent : Nid) (name : String) (nid : Option Nid) (props : List PropArg) (s : Topo)
-    (hh : HandleOk s parent .networkNode) (h : InvS s) : InvS (addStorage fl c parent name nid props s).2 := by
+theorem inv_addStorage {P : Topo → Prop} (hP : AttachStable P) (fl : Flavour) (c : Nat) (parent : Nid) (name : String) (nid : Option Nid) (props : List PropArg) (s : Topo)
+    (hh : HandleOk s parent .networkNode) (h : P s) : P (addStorage fl c parent name nid props s).2 := by
   unfold addStorage
-  refine ro_step (Q := fun r => InvS r.2) (by ro) (fun _ => h) (fun _ _ => ?_)
-  refine ro_step (Q := fun r => InvS r.2) (by ro) (fun _ => h) (fun _ _ => ?_)
-  refine ro_step (Q := fun r => InvS r.2) (by ro) (fun _ => h) (fun _ _ => ?_)
-  exact invS_compNew fl c parent _ s hh h
+  refine ro_step (Q := fun r => P r.2) (by ro) (fun _ => h) (fun _ _ => ?_)
+  refine ro_step (Q := fun r => P r.2) (by ro) (fun _ => h) (fun _ _ => ?_)
+  refine ro_step (Q := fun r => P r.2) (by ro) (fun _ => h) (fun _ _ => ?_)
+  exact inv_compNew hP fl c parent _ s hh h
+
+theorem invS_addComponent (fl : Flavour) (c : Nat) (parent : Nid) (a : CompArgs) (s : Topo) (hh : HandleOk s parent .networkNode)
+    (h : InvS s) : InvS (addComponent fl c parent a s).2 := inv_addComponent attachStable_invS fl c parent a s hh h
+theorem invD_addComponent (fl : Flavour) (c : Nat) (parent : Nid) (a : CompArgs) (s : Topo) (hh : HandleOk s parent .networkNode)
+    (h : InvD s) : InvD (addComponent fl c parent a s).2 := inv_addComponent attachStable_invD fl c parent a s hh h
+theorem invS_addStorage (fl : Flavour) (c : Nat) (parent : Nid) (name : String) (nid : Option Nid) (props : List PropArg) (s : Topo)
+    (hh : HandleOk s parent .networkNode) (h : InvS s) : InvS (addStorage fl c parent name nid props s).2 :=
+  inv_addStorage attachStable_invS fl c parent name nid props s hh h
+theorem invD_addStorage (fl : Flavour) (c : Nat) (parent : Nid) (name : String) (nid : Option Nid) (props : List PropArg) (s : Topo)
+    (hh : HandleOk s parent .networkNode) (h : InvD s) : InvD (addStorage fl c parent name nid props s).2 :=
+  inv_addStorage attachStable_invD fl c parent name nid props s hh h
 
 end FimVerif.Topo
